@@ -336,7 +336,7 @@ class SystemLoss:
     """abstract SystemLossODE / SystemLossPDE built through the repository's constructor"""
 
     def __init__(self, E, eq_type, net_kind='PINN', unknowns=('a', 'b'), equations=('e1', 'e2'), d=2, terms=('dyn', 'ic'),
-                 weights='scalar', eq_keys=('nu',), m_res=None):
+                 weights='scalar', eq_keys=('nu',), m_res=None, derivative_keys_dict=None):
         self.E, self.eq_type, self.net_kind, self.d = E, eq_type, net_kind, d
         self.unknowns, self.equations, self.terms = tuple(unknowns), tuple(equations), set(terms)
         d_net = 0 if eq_type == 'ODE' else d
@@ -393,6 +393,8 @@ class SystemLoss:
                 kw['norm_int_length_dict'] = f('norm_int_length')
             if 'ic' in self.terms and eq_type == 'nonstatio_PDE':
                 kw['initial_condition_fun_dict'] = f('initial_condition_fun')
+        if derivative_keys_dict is not None:
+            kw['derivative_keys_dict'] = derivative_keys_dict
         self.loss = cls(u_dict=self.u_dict, dynamic_loss_dict=self.dyn, loss_weights=lw, params_dict=self.params, **kw)
 
     def batch(self, param_keys=()):
